@@ -21,7 +21,7 @@ CORR2 = ["missing sensors names", "missing points coordinates", "missing mapping
 ALL_STATES = ["geo1:" + c for c in CORR1] + ["geo2:" + c for c in CORR2] + ["table rows permuted against name order", "multi-setup names (table)", "multi-setup names (list of lists)",
                                                                                  "single names (row table)", "single names (list)", "single names (array)", "optional sheets all omitted",
                                                                                  "optional sheets all present", "constraints used", "constraints sheet omitted"]
-ALL_STATES += ["removed name is a substring of another cell", "sign table with row labels other than the points' labels"]
+ALL_STATES += ["malformed tables given as arguments", "removed name is a substring of another cell", "sign table with row labels other than the points' labels"]
 REQUIRED_STATES = list(ALL_STATES)
 RULE = ("sensor sets of 1..12 names; coordinate/direction tables with rows permuted against the name order; mapping tables whose cells are sensor names, constraint "
         "names or 0/NaN; constraint matrices; sign tables in {-1,0,1}; one-based line/surface tables; optional sheets present/absent in every combination; "
@@ -57,6 +57,9 @@ def make_setup(rng, multi, numbered=False):
             # the usual numbered channel names: one name is a substring of another (ch1 / ch10, r1 / r11, REF1 / REF10)
             stem = str(rng.choice(["ch", "r", "REF", "acc_"]))
             names = [f"{stem}{int(i) + 1}" for i in rng.permutation(max(n, 10) + 2)[:n]]
+            if numbered:
+                rest = [x for x in names if x not in (f"{stem}1", f"{stem}10")][: n - 2]
+                names = [str(x) for x in rng.permutation(rest + [f"{stem}1", f"{stem}10"])]
         ss = SingleSetup(rng.standard_normal((30, n)), 10.0)
         forms = {"single names (row table)": pd.DataFrame([names], index=pd.Index([1], name="setup No."), columns=[f"chann. {i+1}" for i in range(n)]),
                  "single names (list)": list(names), "single names (array)": np.array(names)}
@@ -364,7 +367,7 @@ def corrupt(rng, which, name, tabs, flat, names_tab):
     elif name == "name not in mapping":
         cells = [c for c in d["mapping"].to_numpy().ravel() if isinstance(c, str)]
         inside = [n_ for n_ in flat if any(n_ != c and n_ in c for c in cells)]  # absent names that still occur INSIDE another cell's text
-        victim = inside[int(rng.integers(0, len(inside)))] if inside and rng.random() < 0.7 else flat[-1]
+        victim = inside[int(rng.integers(0, len(inside)))] if inside and (getattr(corrupt, "force", False) or rng.random() < 0.7) else flat[-1]
         d["mapping"] = d["mapping"].replace(victim, 0)
         corrupt.note = "removed name is a substring of another cell" if victim in inside else None
     elif name == "constraint column unknown sensor":
@@ -383,7 +386,8 @@ def run_corrupt(ctx, case, rng, which):
     names_list = CORR1 if which == 1 else CORR2
     name = names_list[case["k"] % len(names_list)]
     multi = rng.random() < 0.3
-    if name == "name not in mapping" and rng.random() < 0.6:
+    corrupt.force = name == "name not in mapping" and (case["k"] // len(names_list)) % 2 == 0
+    if corrupt.force:
         setup, forms, flat = make_setup(rng, False, numbered=True)
     else:
         setup, forms, flat = make_setup(rng, multi)
@@ -403,8 +407,24 @@ def run_corrupt(ctx, case, rng, which):
     tag = f"corruption->ValueError@geo{which}"
     ctx.ev(tag)
     via_file = rng.random() < 0.5
+    ARGS1 = {"coordinates 2 columns", "directions 2 columns", "directions fewer rows", "directions other index", "name not in coordinates",
+             "BG nodes 2 columns", "BG lines 3 columns", "BG surfaces 2 columns"}
+    ARGS2 = {"points 2 columns", "mapping fewer rows", "sign fewer rows", "name not in mapping", "constraint column unknown sensor", "constraint never used"}
+    via_args = name in (ARGS1 if which == 1 else ARGS2) and rng.random() < 0.4
     try:
-        if via_file:
+        if via_args:
+            # the same malformed tables handed over as arguments (tables stay tables: labels and shapes as corrupted)
+            ctx.state("malformed tables given as arguments")
+            opt1 = (("sensors lines", "sens_lines"), ("BG nodes", "bg_nodes"), ("BG lines", "bg_lines"), ("BG surfaces", "bg_surf"))
+            opt2 = (("constraints", "cstr"), ("sensors sign", "sens_sign"), ("sensors lines", "sens_lines"), ("sensors surfaces", "sens_surf"), ("BG nodes", "bg_nodes"),
+                    ("BG lines", "bg_lines"), ("BG surfaces", "bg_surf"))
+            kw = {arg: bad[key].copy() for key, arg in (opt1 if which == 1 else opt2) if key in bad}
+            if which == 1:
+                setup.def_geo1(copy.deepcopy(names_tab), bad["sensors coordinates"].copy(), bad["sensors directions"].copy(), **kw)
+            else:
+                setup.def_geo2(copy.deepcopy(names_tab), bad["points coordinates"].copy(), bad["mapping"].copy(), **kw)
+            made = True
+        elif via_file:
             with patched_reader(bad):
                 (setup.def_geo1_by_file if which == 1 else setup.def_geo2_by_file)("dummy.xlsx")
             made = (setup.geo1 if which == 1 else setup.geo2) is not None
